@@ -4,6 +4,7 @@ CONSTANTS MaxNodes = 3
  Aligns = {1}
  BinLens = {0}
  Pats = {0}
+ NegOffs = {}
 INIT GInit
 NEXT GNext
 CHECK_DEADLOCK FALSE
